@@ -35,7 +35,26 @@ static int predicates(int lo, int hi) {
   return 0;
 }
 
+// --names: every named constant of enum mp::sol::Status with its value (drivers report results through these names)
+static int names() {
+#define NM(x) std::printf("{\"type\":\"name\",\"name\":\"%s\",\"value\":%d}\n", #x, (int)mp::sol::x);
+  NM(SOLVED) NM(SOLVED_LAST) NM(UNCERTAIN) NM(UNCERTAIN_LAST) NM(MP_SOLUTION_CHECK) NM(MP_SOLUTION_CHECK_LAST)
+  NM(INFEASIBLE) NM(INFEASIBLE_LAST) NM(INFEASIBLE_NO_IIS) NM(INFEASIBLE_IIS) NM(INFEASIBLE_IIS_FAILED)
+  NM(UNBOUNDED_FEAS) NM(UNBOUNDED_FEAS_LAST) NM(UNBOUNDED) NM(UNBOUNDED_NO_FEAS) NM(UNBOUNDED_NO_FEAS_LAST)
+  NM(LIMIT_FEAS) NM(LIMIT_FEAS_NEW) NM(LIMIT_FEAS_LAST) NM(LIMIT) NM(LIMIT_FEAS_INTERRUPT) NM(LIMIT_FEAS_TIME)
+  NM(LIMIT_FEAS_ITER) NM(LIMIT_FEAS_NODES) NM(LIMIT_FEAS_BESTOBJ_BESTBND) NM(LIMIT_FEAS_GAP) NM(LIMIT_FEAS_BESTOBJ)
+  NM(LIMIT_FEAS_BESTBND) NM(LIMIT_FEAS_NUMSOLS) NM(LIMIT_FEAS_WORK) NM(LIMIT_FEAS_SOFTMEM) NM(LIMIT_FEAS_FAILURE)
+  NM(LIMIT_INF_UNB) NM(LIMIT_INF_UNB_LAST) NM(INF_OR_UNB) NM(LIMIT_NO_FEAS) NM(LIMIT_NO_FEAS_NEW) NM(LIMIT_NO_FEAS_LAST)
+  NM(LIMIT_NO_FEAS_INTERRUPT) NM(LIMIT_NO_FEAS_TIME) NM(LIMIT_NO_FEAS_ITER) NM(LIMIT_NO_FEAS_NODES) NM(LIMIT_NO_FEAS_CUTOFF)
+  NM(LIMIT_NO_FEAS_BESTBND) NM(LIMIT_NO_FEAS_WORK) NM(LIMIT_NO_FEAS_SOFTMEM) NM(FAILURE) NM(FAILURE_LAST) NM(NUMERIC)
+  NM(SPECIFIC) NM(INTERRUPTED)
+#undef NM
+  std::printf("{\"type\":\"done\"}\n");
+  return 0;
+}
+
 int main(int argc, char** argv) {
+  if (argc == 2 && !std::strcmp(argv[1], "--names")) return names();
   if (argc == 4 && !std::strcmp(argv[1], "--predicates"))
     return predicates(std::atoi(argv[2]), std::atoi(argv[3]));
   return vdriver_main(argc, argv);
